@@ -717,6 +717,35 @@ def weave(repo: Repo, chk: Check) -> None:
                    "one state dictionary is carried through all blocks and sibling regions: a setup in the second region of an op (or in another CFG block) is "
                    "threaded from the setup in the first one, and dedup drops fields that are only set on the other path")
 
+    # ---- loops: the yield of every state block argument is the state at the end of the woven body
+    chk.rule(
+        "C07.weave-loop-yield",
+        "for every accelerator set up in a loop body the loop yields the state the weaving reached at the end of the body - through the yield operand "
+        "appended for a block argument it created, and through the operand it overwrites for a state block argument that was already there "
+        "(pre-threaded input): a yield left as found may name a state that later setups of the body have replaced",
+        floor=1,
+    )
+    body_weaves = [n for n in ast.walk(f.node) if isinstance(n, ast.Assign) and isinstance(n.targets[0], ast.Name) and isinstance(n.value, ast.Call)
+                   and callee_name(n.value) == f.name and n.value.args and norm.match(T("$o.body"), n.value.args[0]) is not None]
+    if not body_weaves:
+        raise AnalysisError(f"{f.where}: the weaving of a loop body (`x = {f.name}(op.body, ..)`) was not found")
+    after = body_weaves[0].targets[0].id  # type: ignore[union-attr]
+    appended = any(isinstance(n, ast.Assign) and norm.match(T("$y.operands"), n.targets[0]) is not None and isinstance(n.value, ast.Tuple)
+                   and any(isinstance(x, ast.Subscript) and isinstance(x.value, ast.Name) and x.value.id == after for x in ast.walk(n.value)) for n in ast.walk(f.node))
+    chk.result(appended, "C07.weave-loop-yield", f"{f.key}:created", f"{f.module.relpath}:{body_weaves[0].lineno}",
+               "a created state block argument yields the end-of-body state", "the yield is not extended with the end-of-body state of a created loop-carried state")
+    reuses = any(isinstance(n, ast.Call) and callee_name(n) == "find_existing_block_arg" for n in ast.walk(f.node))
+    if reuses:
+        overwritten = any(
+            isinstance(n, ast.Assign) and isinstance(n.targets[0], ast.Subscript) and norm.match(T("$y.operands"), n.targets[0].value) is not None
+            and any(isinstance(x, ast.Attribute) and x.attr == "index" for x in ast.walk(n.targets[0].slice))
+            and any(isinstance(x, ast.Subscript) and isinstance(x.value, ast.Name) and x.value.id == after for x in ast.walk(n.value))
+            for n in ast.walk(f.node))
+        chk.result(overwritten, "C07.weave-loop-yield", f"{f.key}:existing", f"{f.module.relpath}:{body_weaves[0].lineno}",
+                   "a state block argument that was already there gets the end-of-body state as its yield operand",
+                   "a loop that already carries a state keeps the yield operand it came with: if that operand names a state that a later setup of the body has replaced "
+                   "(partially threaded input), the state assumed at the loop head and after the loop is not the one the registers hold")
+
     # ---- regions woven on their own: what is configured inside is unknown outside
     chk.rule(
         "C07.weave-nested",
